@@ -1,18 +1,22 @@
 #!/bin/bash
 # usage (cwd = /verif/coq): ../tools/coq_make.sh theories/Properties_C15.vo ...   (no args: everything)
 # Full .vo build (never -vos/-vok), make -k so that independent files still build when one proof breaks.
+# Only the regeneration of _CoqProject / Makefile.coq is serialised; builds of different targets may run concurrently.
 cd "$(dirname "$0")/../coq"
-mkdir -p ../.build; exec 8>../.build/.lock.coqmake; flock 8
-{ echo "-Q theories GeosV"; echo "-arg -w -arg -notation-overridden,-deprecated-hint-without-locality,-deprecated-instance-without-locality,-ambiguous-paths,-deprecated-hint-rewrite-without-locality"; find theories -name '*.v' | sort; } > _CoqProject.new
-if ! cmp -s _CoqProject.new _CoqProject || [ ! -f Makefile.coq ]; then
-  mv _CoqProject.new _CoqProject
-  coq_makefile -f _CoqProject -o Makefile.coq >/dev/null
-else rm -f _CoqProject.new; fi
+mkdir -p ../.build
+(
+  flock 8
+  { echo "-Q theories GeosV"; echo "-arg -w -arg -notation-overridden,-deprecated-hint-without-locality,-deprecated-instance-without-locality,-ambiguous-paths,-deprecated-hint-rewrite-without-locality"; find theories -name '*.v' | sort; } > _CoqProject.new
+  if ! cmp -s _CoqProject.new _CoqProject || [ ! -f Makefile.coq ]; then
+    mv _CoqProject.new _CoqProject
+    coq_makefile -f _CoqProject -o Makefile.coq >/dev/null
+  else rm -f _CoqProject.new; fi
+) 8>../.build/.lock.coqmake
 T=${COQ_MAKE_TIMEOUT:-1500}
 if [ $# -eq 0 ]; then
   timeout $T make -f Makefile.coq -k -j16 2>&1; rc=$?
 else
-  timeout $T make -f Makefile.coq -k -j16 "$@" 2>&1; rc=$?
+  timeout $T make -f Makefile.coq -k -j8 "$@" 2>&1; rc=$?
 fi
 [ $rc -ne 0 ] && exit $rc
 mkdir -p ../.build/work
